@@ -509,6 +509,14 @@ func checkC03(an *Analysis, add func(Violation)) {
 			continue
 		}
 		failed := c.Rec.Obs.Failed()
+		// broadcast path: datagrams that do not pass as S's are ignored and the call keeps waiting for S
+		if c.Route.Path == "broadcast" && failed && !an.foreignTraffic(c) {
+			if ok, a := an.mustSucceed(c, c.Client.Timeout); ok {
+				v("stopped-waiting", fmt.Sprintf("the reply of the addressed controller was due %v after the request, before the deadline, behind datagrams that must be ignored - but the call failed %v after the request: %s",
+					a.at, c.End.T-c.Sends[0].T, c.Rec.Obs.Err))
+				continue
+			}
+		}
 		switch {
 		case exp.Fail == 2 && exp.Sent:
 			// a sentinel rule: interpretation (C02), not acceptance
